@@ -378,4 +378,7 @@ func TestVerifC08Home(t *testing.T) {
 		}
 		c08hCase(t, out, cl, fl, ls, vfPick(r, c08hCIDs), vfPick(r, c08hAddrs), "random")
 	}
+
+	// third part: scenarios on the object graph built by the real initDNS
+	c08wAll(t, out)
 }
